@@ -247,6 +247,7 @@ pub(crate) fn on_receive(conn: Option<usize>, tcp: bool, size: Option<usize>) ->
 pub use crate::buffer::Buffer as VBuffer;
 pub use crate::socket::{Socket as VSocket, TcpSocketImpl as VTcpSocket, UdpSocketImpl as VUdpSocket};
 pub use crate::utils::{error_by_expected_size, retry_on_timeout, u8_lower_upper};
+pub use crate::http::{HttpClient as VHttpClient, HttpProtocol as VHttpProtocol, HttpSettings as VHttpSettings};
 
 /// `maybe_gather!(toggle, outcome)` as a function: what the macro makes of a section whose gathering function
 /// returned `outcome`, inside a function returning `GDResult` (the `Enforce` arm uses `?`).
